@@ -17,7 +17,10 @@ from dataclasses import dataclass, field, asdict
 from pathlib import Path
 
 VERIF = Path(__file__).resolve().parent.parent
+OUT = Path(os.environ.get("VERIF_OUT") or VERIF)
 REPO = Path(os.environ.get("PYTRAPIC_REPO", "/repo"))
+# evidence/ and replay/ live in /verif; runs against another checkout (seeded changes on scratch copies, snapshots) may send
+# them elsewhere with VERIF_OUT so that the committed evidence always comes from /repo itself
 SRC = REPO / "src" / "stationeers_pytrapic"
 
 DISCHARGED = "discharged"
@@ -121,7 +124,7 @@ class Report:
         lines = []
         n_viol = 0
         known_hit = []
-        replay_dir = VERIF / "replay"
+        replay_dir = OUT / "replay"
         baseline = load_baseline(self.prop)
         for ob in self.obs:
             # rule (b) of DESIGN section 0: an obligation that is discharged on the unchanged tree and for which
@@ -139,7 +142,7 @@ class Report:
                 known_hit.append((kf, ob))
                 continue
             n_viol += 1
-            replay_dir.mkdir(exist_ok=True)
+            replay_dir.mkdir(parents=True, exist_ok=True)
             fn = replay_dir / (self.prop + "-" + _safe(ob.id) + ".json")
             fn.write_text(json.dumps(_jsonable({
                 "property": self.prop,
@@ -237,8 +240,8 @@ class Report:
             "wall_s": round(time.time() - self.t0, 2),
             "violations": n_viol,
         }
-        out = VERIF / "evidence"
-        out.mkdir(exist_ok=True)
+        out = OUT / "evidence"
+        out.mkdir(parents=True, exist_ok=True)
         (out / f"{self.prop}.json").write_text(json.dumps(ev, indent=1))
 
 
